@@ -17,14 +17,14 @@ import (
 func pre_ws(c *websocketTransport) bool { return c != nil && c.socket != nil }
 
 // a NextWriter / NextReader that reports no error returns a writer / reader
-//@ assume (websocketConn).NextWriter iface post=post_NextWriter
+// @ assume (websocketConn).NextWriter iface post=post_NextWriter
 func post_NextWriter(res0 io.WriteCloser, res1 error) bool { return res1 != nil || res0 != nil }
 
-//@ assume (websocketConn).NextReader iface post=post_NextReader
+// @ assume (websocketConn).NextReader iface post=post_NextReader
 func post_NextReader(res1 io.Reader, res2 error) bool { return res2 != nil || res1 != nil }
 
 // Write(b): one binary message, whose only Write carries exactly b, then closed - in that order; nothing else
-//@ verify (*websocketTransport).Write pre=pre_ws post=post_ws_Write props=C17
+// @ verify (*websocketTransport).Write pre=pre_ws post=post_ws_Write props=C17
 func post_ws_Write(c *websocketTransport, b []byte, res0 int, res1 error) bool {
 	nw := vs.TraceFind("NextWriter")
 	if nw < 0 || vs.TraceCount("NextWriter") != 1 || vs.TraceArg[int](nw, 1) != websocket.BinaryMessage {
@@ -46,8 +46,8 @@ func post_ws_Write(c *websocketTransport, b []byte, res0 int, res1 error) bool {
 
 // Read(b): data comes only from the reader of a binary or text message; a message that ended yields (n, nil) and the
 // next Read moves on to the next message. Explored for up to two skipped control frames (stated bounded).
-//@ verify (*websocketTransport).Read pre=pre_ws post=post_ws_Read,post_ws_Read_keeps props=C17
-//@ loop (*websocketTransport).Read 0 unroll 3 bounded
+// @ verify (*websocketTransport).Read pre=pre_ws post=post_ws_Read,post_ws_Read_keeps props=C17
+// @ loop (*websocketTransport).Read 0 unroll 3 bounded
 func post_ws_Read(c *websocketTransport, old_c websocketTransport, res0 int, res1 error) bool {
 	r := vs.TraceFind("Reader).Read")
 	if r < 0 { // no data was read: only because no data message could be obtained
